@@ -17,6 +17,9 @@ CHECK_DEADLOCK FALSE
 """
 
 
+REPLAY = ("TraceSearch", engine.TRACE_CFG % '"C06"')
+
+
 def signature(ev):
     S = set
     if ev["panic"]:
